@@ -46,7 +46,11 @@ def amsgOfEvent : Event → Option AMsg
 
 abbrev PRx (F : Type) := Rx (Option (FullRx F)) Event
 
-/-- one `iter_messages(src).next()`: events that are not messages are consumed and dropped -/
+/-- one `iter_messages(src).next()`: events that are not messages are consumed and dropped.
+    Fuel: every call of `next` either shortens the queue or the source; one sample can queue two events
+    (a link-state change and a transport-state change), so `2 · |src| + |queue| + 1` calls suffice
+    (`ProgramThm`: the first version of this model handed over `|src| + |queue| + 1`, which the proof
+    attempt showed to be too little — a defect of the model, found by proving, not of the code). -/
 def nextMsg : Nat → PRx F → List F → Option AMsg × PRx F × List F
   | 0, r, src => (none, r, src)
   | fuel + 1, r, src =>
@@ -61,7 +65,7 @@ def nextMsg : Nat → PRx F → List F → Option AMsg × PRx F × List F
 def liveMsgs : Nat → PRx F → List F → List (Nat × AMsg) × PRx F
   | 0, r, _ => ([], r)
   | fuel + 1, r, src =>
-    match nextMsg (src.length + r.queue.length + 1) r src with
+    match nextMsg (2 * src.length + r.queue.length + 1) r src with
     | (none, r', _) => ([], r')
     | (some m, r', src') =>
       let (rest, r'') := liveMsgs fuel r' src'
@@ -70,7 +74,7 @@ def liveMsgs : Nat → PRx F → List F → List (Nat × AMsg) × PRx F
 /-- `SameReceiver::flush()` -/
 def flushOnce (rate : Nat) (r : PRx F) : Option AMsg × PRx F :=
   let zeros : List F := List.replicate (4 * rate) zero
-  let res := nextMsg (zeros.length + r.queue.length + 1) r zeros
+  let res := nextMsg (2 * zeros.length + r.queue.length + 1) r zeros
   (res.1, res.2.1)
 
 /-- `flush()` until it returns `None` (at most `fuel` times) -/
